@@ -25,9 +25,10 @@ progress clause, C03-7 only through C11's readability clause, as the rows say); 
 Two detections are sensitive to circumstances: C10-5 (two writers must interleave on one ICE-TCP
 stream) was missed once when five matrix lanes and a quick sweep shared the machine and is caught when
 run alone; C13-6 was caught in about half of the runs until the `tsnwrap-bulk` scenarios were added
-(now 3 of 3 seeds). Under C12-8 every association with the empty-label channel stalls, and the full
-quick tier then needs more than 40 minutes because stalled scenarios wait for their watchdogs; its row
-was produced with `--limit 40` (151 s), the violations are the same.
+(now 3 of 3 seeds). Under C12-8 the full quick tier of C12 first needed more than 40 minutes: a
+branch of the supervision loop (`continue` while waiting for the wire to go quiet on associations with
+partially reliable channels) bypassed the per-scenario watchdog, and the never-acknowledged DCEP OPEN
+kept the wire busy. The watchdog is now evaluated first in every iteration; the run takes 67 s.
 '''
 block=begin+'\n'+intro+table+notes+'\n'+end
 if begin in s:
